@@ -73,7 +73,7 @@ def drop_default_ds(t):
 def ref_mnemonic(t):
     toks = t.split()
     for p in toks:
-        if p in ('lock', 'rep', 'repz', 'repnz', 'repe', 'repne', 'notrack', 'bnd', 'data16', 'addr16', 'cs', 'ds', 'es', 'ss', 'fs', 'gs'):
+        if p in ('lock', 'rep', 'repz', 'repnz', 'repe', 'repne', 'notrack', 'bnd', 'data16', 'addr16', 'cs', 'ds', 'es', 'ss', 'fs', 'gs', 'xacquire', 'xrelease'):
             continue
         return p
     return toks[0] if toks else '?'
